@@ -23,6 +23,7 @@ fn spaces(tier: Tier) -> Vec<Space> {
             Space { alpha: "SHARE", depth: 2 },
             Space { alpha: "T3", depth: 2 },
             Space { alpha: "SAME", depth: 2 },
+            Space { alpha: "TERN", depth: 2 },
             Space { alpha: "MICRO", depth: 3 },
         ],
         Tier::Thorough => vec![
@@ -41,6 +42,8 @@ fn spaces(tier: Tier) -> Vec<Space> {
             Space { alpha: "SHARE", depth: 3 },
             Space { alpha: "SAME", depth: 2 },
             Space { alpha: "SAME", depth: 3 },
+            Space { alpha: "TERN", depth: 2 },
+            Space { alpha: "TERN", depth: 3 },
             Space { alpha: "SELFX", depth: 2 },
             Space { alpha: "SELFX", depth: 3 },
             Space { alpha: "CORE", depth: 3 },
@@ -141,6 +144,8 @@ mod imp {
             Sym::Lam(b) => ST { op: "lam", args: vec![SA::Bind(vec![b.slot], c(0))] },
             Sym::Let(b, _) => ST { op: "let", args: vec![SA::Bind(vec![b.slot], c(0)), SA::Child(c(1))] },
             Sym::Sum(_, b) => ST { op: "sum", args: vec![SA::Child(c(0)), SA::Bind(vec![b.slot, b.elem.slot], c(1))] },
+            Sym::K3(..) => ST { op: "k", args: vec![SA::Child(c(0)), SA::Child(c(1)), SA::Child(c(2))] },
+            Sym::W(a, _) => ST { op: "w", args: vec![SA::Slot(*a), SA::Child(c(0))] },
         }
     }
 
